@@ -25,6 +25,20 @@ pub fn run(ctx: &Ctx) -> Outcome {
         acc.merge(a3);
         describe.push_str(&format!("; plus {} seeded random trees x {} seeded random texts of 5-10 characters", rnd.len(), long.len()));
     }
+    // "nothing left over from abandoned alternatives": every context product with a fallback
+    // alternative that takes the whole text - where P matches the whole text the span is the same
+    // either way, so a lost or wrongly won P shows in the groups; where P fails after having
+    // written groups, the fallback must report them unset
+    {
+        use crate::ast::{Mode, Node, Node::*};
+        let mut g = crate::gen::Gen::new(false);
+        let fillers = g.upto(ctx.tier.pick(1, 2));
+        let fam: Vec<Node> = crate::gen::products(&fillers).into_iter().filter(|p| p.n_groups() > 0).map(|p| Alt(vec![p, Repeat(Box::new(Any(true)), 1, None, Mode::Greedy)])).collect();
+        let a9 = diff::run(ctx, &cfg, &fam, &texts);
+        acc.add("fallback-alternative-evaluations", a9.evals);
+        acc.merge(a9);
+        describe.push_str(&format!("; plus {} patterns P|(?s:.)+ with P = context x E({}) products that hold a group", fam.len(), ctx.tier.pick(1, 2)));
+    }
     // counted repeats with bounds of two and three digits, texts around the bound
     {
         let fam = crate::gen::big_count_family(260);
